@@ -258,6 +258,14 @@ func (t *SessionTeardown) cleanup(session *Session, cause TerminateCause) error 
 	t.mu.Lock()
 	defer t.mu.Unlock()
 
+	// Two paths may end the same session (client PADT while TerminateAll runs, admin
+	// disconnect plus idle timeout): the second must not send another Accounting-Stop
+	// or touch a session ID that may have been reused
+	if session.tornDown {
+		return nil
+	}
+	session.tornDown = true
+
 	ctx, cancel := context.WithTimeout(context.Background(), t.config.CleanupTimeout)
 	defer cancel()
 
